@@ -1,8 +1,1194 @@
-//! (stub) family `frontends` - see CONTRIBUTING.md
-use anyhow::{bail, Result};
+//! C25 driver: one seeded history executed five ways -
+//!   lib     Rust API (reference of cli and http)
+//!   libffi  Rust API performing the call sequence the C API denotes (reference of ffi)
+//!   cli     the searchlite-cli binary, one process per command (cross-process WAL hand-off)
+//!   http    the searchlite-http service in-process, raw TcpStream client
+//!   ffi     the extern "C" functions of searchlite-ffi
+//! and recorded as one `step` event per operation holding every execution's observation:
+//! ok/err, contents (ids + version field) seen through the front end's own search after
+//! init/commit/compact, and for searches the projected result (ids in order, score_e4, stored
+//! values of the sort fields, next_cursor presence, total_hits_estimate, canonical aggregations).
+//! What the invocations denote is specified in spec/Frontends.tla; the oracle is
+//! spec/Trace_Frontends.tla. This file only drives and records.
 
-use crate::util::Args;
+use std::collections::BTreeMap;
+use std::ffi::CString;
+use std::io::{Read, Write};
+use std::net::TcpStream;
+use std::os::raw::c_char;
+use std::path::{Path, PathBuf};
+use std::process::Command;
 
-pub fn main(_args: &Args) -> Result<()> {
-  bail!("family frontends is not implemented yet")
+use anyhow::{anyhow, bail, Context, Result};
+use clap::Parser;
+use rand::rngs::StdRng;
+use rand::Rng;
+use serde_json::{json, Value};
+
+use searchlite_core::api::builder::IndexBuilder;
+use searchlite_core::api::types::SearchRequest;
+use searchlite_core::api::Index;
+use searchlite_ffi::{
+  searchlite_add_json, searchlite_commit, searchlite_index_close, searchlite_index_open,
+  searchlite_search, IndexHandle,
+};
+
+use crate::ffi::{ffi_request, frontend_options};
+use crate::util::*;
+
+const IDS: [&str; 8] = ["a", "b", "c", "d", "e", "f", "g", "h"];
+pub const FES: [&str; 5] = ["lib", "libffi", "cli", "http", "ffi"];
+
+// ------------------------------------------------------------------------------------------------
+// History
+// ------------------------------------------------------------------------------------------------
+
+#[derive(Clone, Debug)]
+pub struct Doc {
+  pub id: String,
+  pub ver: u64,
+  pub valid: bool,
+  pub json: Value,
+}
+
+#[derive(Clone, Debug)]
+pub struct SearchOp {
+  /// Full SearchRequest JSON without cursor.
+  pub req: Value,
+  /// Step whose next_cursor (of the same execution) is passed as cursor.
+  pub cursor_from: Option<usize>,
+  /// "flags" | "file"
+  pub cli_form: &'static str,
+  /// text given to --execution in flags form
+  pub exec_flag: String,
+}
+
+#[derive(Clone, Debug)]
+pub enum Op {
+  Init,
+  Add(Vec<Doc>),
+  Update(Vec<Doc>),
+  Delete(Vec<String>),
+  Commit,
+  Compact,
+  Search(SearchOp),
+}
+
+impl Op {
+  fn kind(&self) -> &'static str {
+    match self {
+      Op::Init => "init",
+      Op::Add(_) => "add",
+      Op::Update(_) => "update",
+      Op::Delete(_) => "delete",
+      Op::Commit => "commit",
+      Op::Compact => "compact",
+      Op::Search(_) => "search",
+    }
+  }
+}
+
+pub fn schema_json() -> Value {
+  json!({
+    "doc_id_field": "_id",
+    "text_fields": [
+      {"name": "body", "analyzer": "default", "stored": true, "indexed": true, "nullable": false}
+    ],
+    "keyword_fields": [
+      {"name": "tag", "stored": true, "indexed": true, "fast": true, "nullable": true}
+    ],
+    "numeric_fields": [
+      {"name": "ver", "i64": true, "fast": true, "stored": true, "nullable": false},
+      {"name": "num", "i64": true, "fast": true, "stored": true, "nullable": true}
+    ],
+    "nested_fields": [],
+    "vector_fields": []
+  })
+}
+
+fn make_doc(r: &mut StdRng, id: &str, ver: u64) -> Doc {
+  let mut d = serde_json::Map::new();
+  d.insert("_id".into(), json!(id));
+  let mut words = vec![format!("w{}", ver % 4), "common".to_string(), id.to_string()];
+  for _ in 0..r.gen_range(0..3) {
+    words.push(format!("w{}", r.gen_range(0..4)));
+  }
+  d.insert("body".into(), json!(words.join(" ")));
+  d.insert("ver".into(), json!(ver));
+  if chance(r, 4, 5) {
+    d.insert("tag".into(), json!(format!("t{}", r.gen_range(0..3))));
+  }
+  if chance(r, 3, 4) {
+    d.insert("num".into(), json!(r.gen_range(0..4)));
+  }
+  Doc { id: id.to_string(), ver, valid: true, json: Value::Object(d) }
+}
+
+fn make_invalid_doc(r: &mut StdRng, id: &str, ver: u64) -> Doc {
+  let json = match r.gen_range(0..3) {
+    0 => json!({"body": "no id here", "ver": ver}),
+    1 => json!({"_id": id, "body": "bad number", "ver": "not-a-number"}),
+    _ => json!({"_id": id, "body": "bad tag", "ver": ver, "tag": 17}),
+  };
+  Doc { id: id.to_string(), ver, valid: false, json }
+}
+
+fn gen_request(r: &mut StdRng) -> Value {
+  let mut q = serde_json::Map::new();
+  let query: Value = match r.gen_range(0..10) {
+    0..=5 => {
+      let s = [
+        "common", "w1", "w2 common", "w0 w3", "a", "w1 b", "body:w2", "nomatch", "common w1 w2",
+        "W3 Common",
+      ];
+      json!(*pick(r, &s))
+    }
+    6 => json!({"type": "match_all"}),
+    7 => json!({"type": "term", "field": "body", "value": format!("w{}", r.gen_range(0..4))}),
+    8 => json!({"type": "bool",
+                "must": [{"type": "term", "field": "body", "value": "common"}],
+                "must_not": [{"type": "term", "field": "body", "value": format!("w{}", r.gen_range(0..4))}]}),
+    _ => json!({"type": "query_string", "query": format!("w{} common", r.gen_range(0..4))}),
+  };
+  q.insert("query".into(), query);
+  if chance(r, 3, 10) {
+    let f = match r.gen_range(0..4) {
+      0 => json!({"KeywordEq": {"field": "tag", "value": format!("t{}", r.gen_range(0..3))}}),
+      1 => json!({"I64Range": {"field": "ver", "min": r.gen_range(0..10), "max": r.gen_range(10..60)}}),
+      2 => json!({"KeywordIn": {"field": "tag", "values": ["t0", "t2"]}}),
+      _ => json!({"And": [{"I64Range": {"field": "num", "min": 1, "max": 3}},
+                          {"Not": {"KeywordEq": {"field": "tag", "value": "t1"}}}]}),
+    };
+    q.insert("filter".into(), f);
+  }
+  q.insert(
+    "limit".into(),
+    json!(match r.gen_range(0..12) {
+      0 => 0,
+      1 => 100,
+      _ => r.gen_range(1..=4),
+    }),
+  );
+  if chance(r, 35, 100) {
+    let s = match r.gen_range(0..5) {
+      0 => json!([{"field": "ver", "order": "desc"}]),
+      1 => json!([{"field": "num"}]),
+      2 => json!([{"field": "tag", "order": "asc"}, {"field": "ver", "order": "desc"}]),
+      3 => json!([{"field": "_score"}, {"field": "ver"}]),
+      _ => json!([{"field": "num", "order": "desc"}, {"field": "tag"}]),
+    };
+    q.insert("sort".into(), s);
+  }
+  let exec = match r.gen_range(0..10) {
+    0..=5 => "wand",
+    6..=7 => "bm25",
+    _ => "bmw",
+  };
+  q.insert("execution".into(), json!(exec));
+  q.insert("return_stored".into(), json!(chance(r, 9, 10)));
+  if chance(r, 3, 10) {
+    let a = match r.gen_range(0..4) {
+      0 => json!({"tags": {"type": "terms", "field": "tag", "size": 5}}),
+      1 => json!({"st": {"type": "stats", "field": "ver"}}),
+      2 => json!({"h": {"type": "histogram", "field": "num", "interval": 2.0},
+                  "n": {"type": "value_count", "field": "num"}}),
+      _ => json!({"c": {"type": "cardinality", "field": "tag"}}),
+    };
+    q.insert("aggs".into(), a);
+  }
+  Value::Object(q)
+}
+
+fn is_string_query(req: &Value) -> bool {
+  req["query"].is_string()
+}
+
+fn cli_flag_expressible(req: &Value) -> bool {
+  is_string_query(req) && req.get("filter").is_none() && req["limit"].as_u64().unwrap_or(0) > 0
+}
+
+fn ffi_expressible(req: &Value) -> bool {
+  req["execution"] == "wand"
+    && req.get("sort").map(|s| s.as_array().map(|a| a.is_empty()).unwrap_or(true)).unwrap_or(true)
+    && req["return_stored"] == true
+    && req.get("filter").is_none()
+}
+
+pub fn gen_history(r: &mut StdRng, scn: usize) -> Vec<Op> {
+  let n = r.gen_range(10..=40);
+  let n_ids = r.gen_range(3..=IDS.len());
+  // every third history also uses an id with a leading blank (add accepts it untrimmed)
+  let mut pool: Vec<&str> = IDS[..n_ids].to_vec();
+  if scn % 3 == 2 {
+    pool.push(" g");
+    pool.push("g");
+  }
+  let ids = &pool[..];
+  let with_invalid = scn % 2 == 1;
+  let mut ops = vec![Op::Init];
+  let mut ver = 0u64;
+  let mut searches: Vec<usize> = Vec::new();
+  while ops.len() < n {
+    let roll = r.gen_range(0..100);
+    let op = match roll {
+      0..=27 | 28..=37 => {
+        if with_invalid && chance(r, 1, 8) {
+          ver += 1;
+          let id = *pick(r, ids);
+          let d = make_invalid_doc(r, id, ver);
+          if roll <= 27 { Op::Add(vec![d]) } else { Op::Update(vec![d]) }
+        } else {
+          let k = r.gen_range(1..=3);
+          let mut docs = Vec::new();
+          for _ in 0..k {
+            ver += 1;
+            let id = *pick(r, ids);
+            docs.push(make_doc(r, id, ver));
+          }
+          if roll <= 27 { Op::Add(docs) } else { Op::Update(docs) }
+        }
+      }
+      38..=48 => {
+        let k = if chance(r, 1, 4) { 2 } else { 1 };
+        let padded = scn % 3 == 2 && chance(r, 1, 3);
+        Op::Delete((0..k).map(|_| if padded { " g".to_string() } else { pick(r, ids).to_string() }).collect())
+      }
+      49..=66 => Op::Commit,
+      67..=70 => Op::Compact,
+      _ => {
+        // a search; sometimes the next page of an earlier search of this history
+        let page = !searches.is_empty() && chance(r, 3, 10);
+        if page {
+          let k = *pick(r, &searches);
+          let Op::Search(prev) = &ops[k] else { unreachable!() };
+          let mut s = prev.clone();
+          s.cursor_from = Some(k);
+          Op::Search(s)
+        } else {
+          let mut req = gen_request(r);
+          // make a good share of the requests expressible by the narrow front ends
+          if chance(r, 1, 3) {
+            let o = req.as_object_mut().unwrap();
+            o.remove("filter");
+            o.remove("sort");
+            o.insert("execution".into(), json!("wand"));
+            o.insert("return_stored".into(), json!(true));
+          }
+          let cli_form = if cli_flag_expressible(&req) && chance(r, 3, 4) { "flags" } else { "file" };
+          let exec_flag = match req["execution"].as_str().unwrap_or("wand") {
+            "wand" => pick(r, &["wand", "auto", "wand"]).to_string(),
+            other => other.to_string(),
+          };
+          Op::Search(SearchOp { req, cursor_from: None, cli_form, exec_flag })
+        }
+      }
+    };
+    if matches!(op, Op::Search(_)) {
+      searches.push(ops.len());
+    }
+    ops.push(op);
+  }
+  // close the history: everything committed, a compaction in half of the histories, two searches
+  ops.push(Op::Commit);
+  if chance(r, 1, 2) {
+    ops.push(Op::Compact);
+  }
+  for q in ["common", "w1 common"] {
+    let req = json!({"query": q, "limit": 3, "execution": "wand", "return_stored": true});
+    ops.push(Op::Search(SearchOp { req, cursor_from: None, cli_form: "flags", exec_flag: "wand".into() }));
+  }
+  let k = ops.len() - 1;
+  let Op::Search(last) = ops[k].clone() else { unreachable!() };
+  ops.push(Op::Search(SearchOp { cursor_from: Some(k), ..last }));
+  ops
+}
+
+/// A TLC-generated history (MC_Frontends.tla PrintCase: add/update/delete/commit/compact with ids,
+/// versions and validity chosen by TLC) as driver operations; a search follows every commit.
+pub fn history_from_case(case: &Value, r: &mut StdRng) -> Vec<Op> {
+  let std_search = |q: &str, form: &'static str| {
+    let req = json!({"query": q, "limit": 3, "execution": "wand", "return_stored": true});
+    Op::Search(SearchOp { req, cursor_from: None, cli_form: form, exec_flag: "wand".into() })
+  };
+  let mut ops = vec![Op::Init];
+  for o in case["ops"].as_array().cloned().unwrap_or_default() {
+    let docs: Vec<Doc> = o["docs"]
+      .as_array()
+      .cloned()
+      .unwrap_or_default()
+      .iter()
+      .map(|d| {
+        let (id, ver) = (d["id"].as_str().unwrap_or("a"), d["ver"].as_u64().unwrap_or(0));
+        if d["valid"] == true { make_doc(r, id, ver) } else { make_invalid_doc(r, id, ver) }
+      })
+      .collect();
+    let ids: Vec<String> = o["ids"].as_array().cloned().unwrap_or_default().iter().filter_map(|x| x["id"].as_str().map(|s| s.to_string())).collect();
+    match o["kind"].as_str().unwrap_or("") {
+      "add" => ops.push(Op::Add(docs)),
+      "update" => ops.push(Op::Update(docs)),
+      "delete" => ops.push(Op::Delete(ids)),
+      "compact" => ops.push(Op::Compact),
+      "commit" => {
+        ops.push(Op::Commit);
+        ops.push(std_search("common", "flags"));
+      }
+      other => panic!("unknown case op {other}"),
+    }
+  }
+  ops.push(Op::Commit);
+  ops.push(std_search("w1 common", "file"));
+  let k = ops.len() - 1;
+  let Op::Search(last) = ops[k].clone() else { unreachable!() };
+  ops.push(Op::Search(SearchOp { cursor_from: Some(k), ..last }));
+  ops
+}
+
+// ------------------------------------------------------------------------------------------------
+// Observations
+// ------------------------------------------------------------------------------------------------
+
+#[derive(Clone, Debug, Default)]
+pub struct Proj {
+  pub ids: Vec<String>,
+  pub scores: Vec<i64>,
+  pub sortvals: Vec<String>,
+  pub has_cursor: bool,
+  pub total: u64,
+  pub aggs: String,
+}
+
+#[derive(Clone, Debug, Default)]
+pub struct Obs {
+  pub ran: bool,
+  pub ok: bool,
+  pub has_contents: bool,
+  pub contents: Vec<(String, u64)>,
+  pub res: Proj,
+  pub note: String,
+  pub cursor: Option<String>,
+}
+
+impl Obs {
+  fn na() -> Self {
+    Obs::default()
+  }
+  fn status(ok: bool, note: String) -> Self {
+    Obs { ran: true, ok, note, ..Default::default() }
+  }
+  fn json(&self) -> Value {
+    json!({
+      "ran": self.ran, "ok": self.ok, "has_contents": self.has_contents,
+      "contents": self.contents.iter().map(|(i, v)| json!({"id": i, "ver": v})).collect::<Vec<_>>(),
+      "res": {"ok": self.ok, "ids": self.res.ids, "scores": self.res.scores, "sortvals": self.res.sortvals,
+              "has_cursor": self.res.has_cursor, "total": self.res.total.min(2_000_000_000),
+              "aggs": self.res.aggs},
+      "note": self.note,
+    })
+  }
+}
+
+fn sort_fields(req: &Value) -> Vec<String> {
+  req
+    .get("sort")
+    .and_then(|s| s.as_array())
+    .map(|a| a.iter().filter_map(|c| c["field"].as_str()).filter(|f| *f != "_score").map(|s| s.to_string()).collect())
+    .unwrap_or_default()
+}
+
+/// Projection of a SearchResult JSON (as produced by any front end).
+pub fn project(result: &Value, req: &Value) -> (Proj, Option<String>) {
+  let sf = sort_fields(req);
+  let mut p = Proj::default();
+  for h in result["hits"].as_array().cloned().unwrap_or_default() {
+    p.ids.push(h["doc_id"].as_str().unwrap_or("?").to_string());
+    p.scores.push((h["score"].as_f64().unwrap_or(-1.0) * 10_000.0).round() as i64);
+    let vals: Vec<String> = sf
+      .iter()
+      .map(|f| h["fields"].get(f).map(|v| v.to_string()).unwrap_or_default())
+      .collect();
+    p.sortvals.push(vals.join("|"));
+  }
+  let cursor = result["next_cursor"].as_str().map(|s| s.to_string());
+  p.has_cursor = cursor.is_some();
+  p.total = result["total_hits_estimate"].as_u64().unwrap_or(0);
+  p.aggs = result.get("aggregations").map(|a| a.to_string()).unwrap_or_default();
+  (p, cursor)
+}
+
+fn contents_of(result: &Value) -> Vec<(String, u64)> {
+  let mut out: Vec<(String, u64)> = result["hits"]
+    .as_array()
+    .cloned()
+    .unwrap_or_default()
+    .iter()
+    .map(|h| (h["doc_id"].as_str().unwrap_or("?").to_string(), h["fields"]["ver"].as_u64().unwrap_or(0)))
+    .collect();
+  out.sort();
+  out
+}
+
+fn contents_request() -> Value {
+  json!({"query": {"type": "match_all"}, "limit": 1000, "return_stored": true, "execution": "bm25"})
+}
+
+fn with_cursor(req: &Value, cursor: &Option<String>) -> Value {
+  let mut v = req.clone();
+  if let Some(c) = cursor {
+    v.as_object_mut().unwrap().insert("cursor".into(), json!(c));
+  }
+  v
+}
+
+fn clean(msg: &str, dir: &Path) -> String {
+  msg.replace(&dir.to_string_lossy().to_string(), "<dir>").chars().take(160).collect()
+}
+
+fn wants_contents(op: &Op) -> bool {
+  matches!(op, Op::Init | Op::Commit | Op::Compact)
+}
+
+/// Per execution: the cursor each search step returned (for `cursor_from`).
+type Cursors = BTreeMap<usize, Option<String>>;
+
+fn cursor_for(s: &SearchOp, cursors: &Cursors) -> Option<String> {
+  s.cursor_from.and_then(|k| cursors.get(&k).cloned().flatten())
+}
+
+// ------------------------------------------------------------------------------------------------
+// lib / libffi
+// ------------------------------------------------------------------------------------------------
+
+fn lib_search(idx: &Index, req: Result<SearchRequest, String>) -> Result<Value, String> {
+  let req = req?;
+  let reader = idx.reader().map_err(|e| format!("{e:#}"))?;
+  let res = reader.search(&req).map_err(|e| format!("{e:#}"))?;
+  serde_json::to_value(&res).map_err(|e| e.to_string())
+}
+
+fn lib_contents(idx: &Index) -> Result<Vec<(String, u64)>, String> {
+  let req = serde_json::from_value::<SearchRequest>(contents_request()).map_err(|e| e.to_string());
+  lib_search(idx, req).map(|v| contents_of(&v))
+}
+
+fn run_lib(ops: &[Op], dir: &Path, per_doc_commit: bool) -> Result<Vec<Obs>> {
+  let root = dir.join("idx");
+  let mut out = Vec::new();
+  let mut idx: Option<Index> = None;
+  let mut cursors = Cursors::new();
+  for (step, op) in ops.iter().enumerate() {
+    let mut o = match op {
+      Op::Init => {
+        let schema = schema_from_json(schema_json());
+        match IndexBuilder::create(&root, schema, frontend_options(&root, true)) {
+          Ok(i) => {
+            idx = Some(i);
+            Obs::status(true, String::new())
+          }
+          Err(e) => Obs::status(false, clean(&format!("{e:#}"), dir)),
+        }
+      }
+      Op::Add(docs) | Op::Update(docs) => {
+        let i = idx.as_ref().ok_or_else(|| anyhow!("no index"))?;
+        let mut res: Result<(), String> = Ok(());
+        if per_doc_commit {
+          for d in docs {
+            let mut w = i.writer()?;
+            if let Err(e) = w.add_document(&doc_from_json(d.json.clone())) {
+              res = Err(format!("{e:#}"));
+              break;
+            }
+            if let Err(e) = w.commit() {
+              res = Err(format!("commit: {e:#}"));
+              break;
+            }
+          }
+        } else {
+          let mut w = i.writer()?;
+          for d in docs {
+            if let Err(e) = w.add_document(&doc_from_json(d.json.clone())) {
+              res = Err(format!("{e:#}"));
+              break;
+            }
+          }
+        }
+        Obs::status(res.is_ok(), res.err().map(|e| clean(&e, dir)).unwrap_or_default())
+      }
+      Op::Delete(ids) => {
+        let i = idx.as_ref().ok_or_else(|| anyhow!("no index"))?;
+        let mut w = i.writer()?;
+        let res = w.delete_documents(ids);
+        Obs::status(res.is_ok(), res.err().map(|e| clean(&format!("{e:#}"), dir)).unwrap_or_default())
+      }
+      Op::Commit => {
+        let i = idx.as_ref().ok_or_else(|| anyhow!("no index"))?;
+        let mut w = i.writer()?;
+        let res = w.commit();
+        Obs::status(res.is_ok(), res.err().map(|e| clean(&format!("{e:#}"), dir)).unwrap_or_default())
+      }
+      Op::Compact => {
+        let i = idx.as_ref().ok_or_else(|| anyhow!("no index"))?;
+        let res = i.compact();
+        Obs::status(res.is_ok(), res.err().map(|e| clean(&format!("{e:#}"), dir)).unwrap_or_default())
+      }
+      Op::Search(s) => {
+        let i = idx.as_ref().ok_or_else(|| anyhow!("no index"))?;
+        let cursor = cursor_for(s, &cursors);
+        let req: Option<Result<SearchRequest, String>> = if per_doc_commit {
+          if ffi_expressible(&s.req) {
+            let a = ffi_args(&s.req, &cursor);
+            Some(
+              ffi_request(a.query.as_bytes(), a.limit, a.cursor.as_deref().map(|c| c.as_bytes()),
+                          a.aggs.as_deref().map(|c| c.as_bytes()), a.aggs.as_ref().map(|c| c.len()).unwrap_or(0))
+                .ok_or_else(|| "aggregations do not parse".to_string()),
+            )
+          } else {
+            None
+          }
+        } else {
+          Some(serde_json::from_value::<SearchRequest>(with_cursor(&s.req, &cursor)).map_err(|e| e.to_string()))
+        };
+        match req {
+          None => Obs::na(),
+          Some(req) => match lib_search(i, req) {
+            Ok(v) => {
+              let (p, c) = project(&v, &s.req);
+              cursors.insert(step, c.clone());
+              Obs { ran: true, ok: true, res: p, cursor: c, ..Default::default() }
+            }
+            Err(e) => {
+              cursors.insert(step, None);
+              Obs::status(false, clean(&e, dir))
+            }
+          },
+        }
+      }
+    };
+    if wants_contents(op) && o.ok {
+      if let Some(i) = idx.as_ref() {
+        match lib_contents(i) {
+          Ok(c) => {
+            o.has_contents = true;
+            o.contents = c;
+          }
+          Err(e) => o.note = clean(&format!("contents: {e}"), dir),
+        }
+      }
+    }
+    out.push(o);
+  }
+  Ok(out)
+}
+
+// ------------------------------------------------------------------------------------------------
+// ffi
+// ------------------------------------------------------------------------------------------------
+
+pub struct FfiArgs {
+  pub query: String,
+  pub query_is_node: bool,
+  pub limit: usize,
+  pub cursor: Option<String>,
+  pub aggs: Option<String>,
+}
+
+/// The C arguments that carry `req` (only meaningful when `ffi_expressible(req)`).
+pub fn ffi_args(req: &Value, cursor: &Option<String>) -> FfiArgs {
+  let (query, query_is_node) = match &req["query"] {
+    Value::String(s) => (s.clone(), false),
+    other => (other.to_string(), true),
+  };
+  let aggs = req.get("aggs").filter(|a| a.as_object().map(|o| !o.is_empty()).unwrap_or(false)).map(|a| a.to_string());
+  FfiArgs {
+    query,
+    query_is_node,
+    limit: req["limit"].as_u64().unwrap_or(0) as usize,
+    cursor: cursor.clone(),
+    aggs,
+  }
+}
+
+struct Handle(*mut IndexHandle);
+
+impl Handle {
+  fn open(root: &Path) -> Result<Self> {
+    let c = CString::new(root.to_string_lossy().to_string())?;
+    let h = unsafe { searchlite_index_open(c.as_ptr(), false) };
+    if h.is_null() {
+      bail!("searchlite_index_open returned NULL");
+    }
+    Ok(Handle(h))
+  }
+  fn search(&self, a: &FfiArgs) -> Result<Value, String> {
+    let q = CString::new(a.query.clone()).map_err(|e| e.to_string())?;
+    let c = a.cursor.as_ref().map(|c| CString::new(c.clone()).unwrap());
+    let ag = a.aggs.as_ref().map(|c| CString::new(c.clone()).unwrap());
+    let mut cap = 1usize << 20;
+    loop {
+      let mut buf = vec![0u8; cap];
+      let n = unsafe {
+        searchlite_search(
+          self.0,
+          q.as_ptr(),
+          a.limit,
+          c.as_ref().map(|x| x.as_ptr()).unwrap_or(std::ptr::null()),
+          ag.as_ref().map(|x| x.as_ptr()).unwrap_or(std::ptr::null()),
+          a.aggs.as_ref().map(|x| x.len()).unwrap_or(0),
+          buf.as_mut_ptr() as *mut c_char,
+          cap,
+        )
+      };
+      if n + 1 >= cap && cap < (1 << 28) {
+        cap *= 8;
+        continue;
+      }
+      if n == 0 {
+        return Err("searchlite_search returned 0".into());
+      }
+      return serde_json::from_slice::<Value>(&buf[..n]).map_err(|e| format!("response is not JSON: {e}"));
+    }
+  }
+}
+
+impl Drop for Handle {
+  fn drop(&mut self) {
+    unsafe { searchlite_index_close(self.0) };
+  }
+}
+
+fn run_ffi(ops: &[Op], dir: &Path) -> Result<Vec<Obs>> {
+  let root = dir.join("idx");
+  let mut out = Vec::new();
+  let mut h: Option<Handle> = None;
+  let mut cursors = Cursors::new();
+  for (step, op) in ops.iter().enumerate() {
+    let mut o = match op {
+      Op::Init => {
+        // no C entry point creates an index with a schema: through the library (Frontends.tla)
+        let schema = schema_from_json(schema_json());
+        match IndexBuilder::create(&root, schema, frontend_options(&root, true)) {
+          Ok(i) => {
+            drop(i);
+            h = Some(Handle::open(&root)?);
+            Obs::status(true, String::new())
+          }
+          Err(e) => Obs::status(false, clean(&format!("{e:#}"), dir)),
+        }
+      }
+      Op::Add(docs) | Op::Update(docs) => {
+        let hh = h.as_ref().ok_or_else(|| anyhow!("no handle"))?;
+        let mut st = 0;
+        for d in docs {
+          let c = CString::new(d.json.to_string())?;
+          st = unsafe { searchlite_add_json(hh.0, c.as_ptr(), c.as_bytes().len()) };
+          if st < 0 {
+            break;
+          }
+        }
+        Obs::status(st >= 0, if st < 0 { format!("searchlite_add_json returned {st}") } else { String::new() })
+      }
+      Op::Delete(_) | Op::Compact => {
+        // not expressible through the C API: library call on the same directory between a
+        // close and a reopen of the handle
+        drop(h.take());
+        let res: Result<(), String> = (|| {
+          let i = Index::open(frontend_options(&root, false)).map_err(|e| format!("{e:#}"))?;
+          match op {
+            Op::Delete(ids) => {
+              let mut w = i.writer().map_err(|e| format!("{e:#}"))?;
+              w.delete_documents(ids).map_err(|e| format!("{e:#}"))
+            }
+            _ => i.compact().map_err(|e| format!("{e:#}")),
+          }
+        })();
+        h = Some(Handle::open(&root)?);
+        Obs::status(res.is_ok(), res.err().map(|e| clean(&e, dir)).unwrap_or_default())
+      }
+      Op::Commit => {
+        let hh = h.as_ref().ok_or_else(|| anyhow!("no handle"))?;
+        let st = unsafe { searchlite_commit(hh.0) };
+        Obs::status(st == 0, if st != 0 { format!("searchlite_commit returned {st}") } else { String::new() })
+      }
+      Op::Search(s) => {
+        let hh = h.as_ref().ok_or_else(|| anyhow!("no handle"))?;
+        if !ffi_expressible(&s.req) {
+          Obs::na()
+        } else {
+          let cursor = cursor_for(s, &cursors);
+          match hh.search(&ffi_args(&s.req, &cursor)) {
+            Ok(v) => {
+              let (p, c) = project(&v, &s.req);
+              cursors.insert(step, c.clone());
+              Obs { ran: true, ok: true, res: p, cursor: c, ..Default::default() }
+            }
+            Err(e) => {
+              cursors.insert(step, None);
+              Obs::status(false, e)
+            }
+          }
+        }
+      }
+    };
+    if wants_contents(op) && o.ok {
+      if let Some(hh) = h.as_ref() {
+        match hh.search(&ffi_args(&contents_request(), &None)) {
+          Ok(v) => {
+            o.has_contents = true;
+            o.contents = contents_of(&v);
+          }
+          Err(e) => o.note = format!("contents: {e}"),
+        }
+      }
+    }
+    out.push(o);
+  }
+  Ok(out)
+}
+
+// ------------------------------------------------------------------------------------------------
+// cli
+// ------------------------------------------------------------------------------------------------
+
+/// The flags that carry `req` (only meaningful when `cli_flag_expressible(req)`).
+pub fn cli_flags(s: &SearchOp, cursor: &Option<String>) -> (Vec<String>, Value) {
+  let req = &s.req;
+  let mut args = vec![format!("--query={}", req["query"].as_str().unwrap_or(""))];
+  let limit = req["limit"].as_u64().unwrap_or(10);
+  args.push(format!("--limit={limit}"));
+  args.push(format!("--execution={}", s.exec_flag));
+  let mut sort_log = Vec::new();
+  if let Some(sort) = req.get("sort").and_then(|x| x.as_array()) {
+    let clauses: Vec<String> = sort
+      .iter()
+      .map(|c| {
+        let f = c["field"].as_str().unwrap_or("");
+        let o = c.get("order").and_then(|o| o.as_str()).unwrap_or("");
+        sort_log.push(json!({"field": f, "order": o}));
+        if o.is_empty() { f.to_string() } else { format!("{f}:{o}") }
+      })
+      .collect();
+    if !clauses.is_empty() {
+      args.push(format!("--sort={}", clauses.join(",")));
+    }
+  }
+  if let Some(c) = cursor {
+    args.push(format!("--cursor={c}"));
+  }
+  let aggs = req.get("aggs").filter(|a| a.as_object().map(|o| !o.is_empty()).unwrap_or(false)).map(|a| a.to_string());
+  if let Some(a) = &aggs {
+    args.push(format!("--aggs={a}"));
+  }
+  let rs = req["return_stored"] == true;
+  if rs {
+    args.push("--return-stored".into());
+  }
+  let log = json!({
+    "q": req["query"].as_str().unwrap_or(""), "limit": limit, "execution": s.exec_flag,
+    "sort": sort_log, "has_cursor": cursor.is_some(), "return_stored": rs,
+    "aggs": aggs.unwrap_or_default(),
+  });
+  (args, log)
+}
+
+struct Cli<'a> {
+  bin: &'a Path,
+  dir: &'a Path,
+  index: PathBuf,
+}
+
+impl<'a> Cli<'a> {
+  fn run(&self, args: &[String]) -> Result<(bool, String, String)> {
+    let out = Command::new(self.bin)
+      .args(args)
+      .env_remove("RUST_LOG")
+      .env_remove("RUST_BACKTRACE")
+      .current_dir(self.dir)
+      .output()
+      .with_context(|| format!("running {:?}", self.bin))?;
+    Ok((
+      out.status.success(),
+      String::from_utf8_lossy(&out.stdout).to_string(),
+      String::from_utf8_lossy(&out.stderr).to_string(),
+    ))
+  }
+  fn search_file(&self, step: usize, req: &Value) -> Result<Result<Value, String>> {
+    let p = self.dir.join(format!("request-{step}.json"));
+    std::fs::write(&p, serde_json::to_string_pretty(req)?)?;
+    let idx = self.index.to_string_lossy().to_string();
+    let (ok, so, se) = self.run(&["search".into(), idx, format!("--request={}", p.to_string_lossy())])?;
+    Ok(Self::parse(ok, &so, &se))
+  }
+  fn parse(ok: bool, so: &str, se: &str) -> Result<Value, String> {
+    if !ok {
+      return Err(se.lines().next().unwrap_or("exit status != 0").to_string());
+    }
+    serde_json::from_str::<Value>(so).map_err(|e| format!("stdout is not JSON: {e}"))
+  }
+}
+
+fn run_cli(ops: &[Op], dir: &Path, bin: &Path) -> Result<Vec<Obs>> {
+  let cli = Cli { bin, dir, index: dir.join("idx") };
+  let idx = cli.index.to_string_lossy().to_string();
+  let mut out = Vec::new();
+  let mut cursors = Cursors::new();
+  for (step, op) in ops.iter().enumerate() {
+    let mut o = match op {
+      Op::Init => {
+        let sp = dir.join("schema.json");
+        std::fs::write(&sp, serde_json::to_string_pretty(&schema_json())?)?;
+        let (ok, _, se) = cli.run(&["init".into(), idx.clone(), sp.to_string_lossy().to_string()])?;
+        Obs::status(ok, if ok { String::new() } else { clean(&se, dir) })
+      }
+      Op::Add(docs) | Op::Update(docs) => {
+        let dp = dir.join(format!("docs-{step}.jsonl"));
+        let mut text = String::new();
+        for d in docs {
+          text.push_str(&d.json.to_string());
+          text.push('\n');
+        }
+        std::fs::write(&dp, text)?;
+        let cmd = if matches!(op, Op::Add(_)) { "add" } else { "update" };
+        let (ok, _, se) = cli.run(&[cmd.into(), idx.clone(), dp.to_string_lossy().to_string()])?;
+        Obs::status(ok, if ok { String::new() } else { clean(&se, dir) })
+      }
+      Op::Delete(ids) => {
+        let ip = dir.join(format!("ids-{step}.txt"));
+        std::fs::write(&ip, ids.join("\n") + "\n")?;
+        let (ok, _, se) = cli.run(&["delete".into(), idx.clone(), ip.to_string_lossy().to_string()])?;
+        Obs::status(ok, if ok { String::new() } else { clean(&se, dir) })
+      }
+      Op::Commit => {
+        let (ok, _, se) = cli.run(&["commit".into(), idx.clone()])?;
+        Obs::status(ok, if ok { String::new() } else { clean(&se, dir) })
+      }
+      Op::Compact => {
+        let (ok, _, se) = cli.run(&["compact".into(), idx.clone()])?;
+        Obs::status(ok, if ok { String::new() } else { clean(&se, dir) })
+      }
+      Op::Search(s) => {
+        let cursor = cursor_for(s, &cursors);
+        let res = if s.cli_form == "flags" {
+          let (mut args, _) = cli_flags(s, &cursor);
+          let mut full = vec!["search".to_string(), idx.clone()];
+          full.append(&mut args);
+          let (ok, so, se) = cli.run(&full)?;
+          Cli::parse(ok, &so, &se)
+        } else {
+          cli.search_file(step, &with_cursor(&s.req, &cursor))?
+        };
+        match res {
+          Ok(v) => {
+            let (p, c) = project(&v, &s.req);
+            cursors.insert(step, c.clone());
+            Obs { ran: true, ok: true, res: p, cursor: c, ..Default::default() }
+          }
+          Err(e) => {
+            cursors.insert(step, None);
+            Obs::status(false, clean(&e, dir))
+          }
+        }
+      }
+    };
+    if wants_contents(op) && o.ok {
+      match cli.search_file(10_000 + step, &contents_request())? {
+        Ok(v) => {
+          o.has_contents = true;
+          o.contents = contents_of(&v);
+        }
+        Err(e) => o.note = clean(&format!("contents: {e}"), dir),
+      }
+    }
+    out.push(o);
+  }
+  Ok(out)
+}
+
+// ------------------------------------------------------------------------------------------------
+// http
+// ------------------------------------------------------------------------------------------------
+
+fn http_call(port: u16, method: &str, path: &str, ctype: &str, body: &[u8]) -> Result<(u16, Vec<u8>)> {
+  let mut s = TcpStream::connect(("127.0.0.1", port))?;
+  s.set_read_timeout(Some(std::time::Duration::from_secs(120)))?;
+  let head = format!(
+    "{method} {path} HTTP/1.1\r\nHost: localhost\r\nConnection: close\r\nContent-Type: {ctype}\r\nContent-Length: {}\r\n\r\n",
+    body.len()
+  );
+  s.write_all(head.as_bytes())?;
+  s.write_all(body)?;
+  let mut raw = Vec::new();
+  s.read_to_end(&mut raw)?;
+  let split = raw
+    .windows(4)
+    .position(|w| w == b"\r\n\r\n")
+    .ok_or_else(|| anyhow!("no header terminator in HTTP response"))?;
+  let head = String::from_utf8_lossy(&raw[..split]).to_string();
+  let status: u16 = head
+    .split_whitespace()
+    .nth(1)
+    .and_then(|s| s.parse().ok())
+    .ok_or_else(|| anyhow!("bad status line"))?;
+  let mut body = raw[split + 4..].to_vec();
+  if head.to_ascii_lowercase().contains("transfer-encoding: chunked") {
+    let mut out = Vec::new();
+    let mut pos = 0usize;
+    while pos < body.len() {
+      let Some(eol) = body[pos..].windows(2).position(|w| w == b"\r\n") else { break };
+      let len = usize::from_str_radix(String::from_utf8_lossy(&body[pos..pos + eol]).trim(), 16).unwrap_or(0);
+      pos += eol + 2;
+      if len == 0 {
+        break;
+      }
+      out.extend_from_slice(&body[pos..(pos + len).min(body.len())]);
+      pos += len + 2;
+    }
+    body = out;
+  }
+  Ok((status, body))
+}
+
+fn free_port() -> Result<u16> {
+  let l = std::net::TcpListener::bind("127.0.0.1:0")?;
+  Ok(l.local_addr()?.port())
+}
+
+fn run_http(ops: &[Op], dir: &Path) -> Result<Vec<Obs>> {
+  let root = dir.join("idx");
+  let rt = tokio::runtime::Builder::new_multi_thread().worker_threads(2).enable_all().build()?;
+  let mut port = 0u16;
+  let mut up = false;
+  for _attempt in 0..5 {
+    port = free_port()?;
+    let args = searchlite_http::ServeArgs::parse_from([
+      "searchlite-http".to_string(),
+      "--index".to_string(),
+      root.to_string_lossy().to_string(),
+      "--bind".to_string(),
+      format!("127.0.0.1:{port}"),
+    ]);
+    let task = rt.spawn(async move { searchlite_http::run(args).await });
+    for _ in 0..400 {
+      if task.is_finished() {
+        break;
+      }
+      if let Ok((200, _)) = http_call(port, "GET", "/healthz", "application/json", b"") {
+        up = true;
+        break;
+      }
+      std::thread::sleep(std::time::Duration::from_millis(10));
+    }
+    if up {
+      // a bind failure surfaces within milliseconds; if our task ended, the answer came from a
+      // foreign server on that port
+      std::thread::sleep(std::time::Duration::from_millis(50));
+      if !task.is_finished() {
+        break;
+      }
+      up = false;
+    }
+    task.abort();
+  }
+  if !up {
+    bail!("the HTTP service did not come up");
+  }
+  let post = |path: &str, ctype: &str, body: &[u8]| -> Result<Result<Value, String>> {
+    let (st, b) = http_call(port, "POST", path, ctype, body)?;
+    let v: Value = serde_json::from_slice(&b).unwrap_or(Value::Null);
+    if st == 200 {
+      Ok(Ok(v))
+    } else {
+      Ok(Err(format!("{st} {}", v["error"]["type"].as_str().unwrap_or("?"))))
+    }
+  };
+  let mut out = Vec::new();
+  let mut cursors = Cursors::new();
+  for (step, op) in ops.iter().enumerate() {
+    let simple = |r: Result<Value, String>| Obs::status(r.is_ok(), r.err().unwrap_or_default());
+    let mut o = match op {
+      Op::Init => simple(post("/init", "application/json", schema_json().to_string().as_bytes())?),
+      Op::Add(docs) => {
+        let mut text = String::new();
+        for d in docs {
+          text.push_str(&d.json.to_string());
+          text.push('\n');
+        }
+        simple(post("/add", "application/x-ndjson", text.as_bytes())?)
+      }
+      Op::Update(docs) => {
+        let body = json!({"docs": docs.iter().map(|d| d.json.clone()).collect::<Vec<_>>()});
+        simple(post("/bulk", "application/json", body.to_string().as_bytes())?)
+      }
+      Op::Delete(ids) => simple(post("/delete", "application/json", json!({"ids": ids}).to_string().as_bytes())?),
+      Op::Commit => simple(post("/commit", "application/json", b"")?),
+      Op::Compact => simple(post("/compact", "application/json", b"")?),
+      Op::Search(s) => {
+        let cursor = cursor_for(s, &cursors);
+        match post("/search", "application/json", with_cursor(&s.req, &cursor).to_string().as_bytes())? {
+          Ok(v) => {
+            let (p, c) = project(&v, &s.req);
+            cursors.insert(step, c.clone());
+            Obs { ran: true, ok: true, res: p, cursor: c, ..Default::default() }
+          }
+          Err(e) => {
+            cursors.insert(step, None);
+            Obs::status(false, e)
+          }
+        }
+      }
+    };
+    if wants_contents(op) && o.ok {
+      match post("/search", "application/json", contents_request().to_string().as_bytes())? {
+        Ok(v) => {
+          o.has_contents = true;
+          o.contents = contents_of(&v);
+        }
+        Err(e) => o.note = format!("contents: {e}"),
+      }
+    }
+    out.push(o);
+  }
+  rt.shutdown_background();
+  Ok(out)
+}
+
+// ------------------------------------------------------------------------------------------------
+// Trace
+// ------------------------------------------------------------------------------------------------
+
+fn summary(s: &SearchOp, has_cursor: bool) -> Value {
+  let req = &s.req;
+  let (qkind, qtext) = match &req["query"] {
+    Value::String(t) => ("string", t.clone()),
+    other => ("node", other.to_string()),
+  };
+  let sort: Vec<Value> = req
+    .get("sort")
+    .and_then(|x| x.as_array())
+    .map(|a| {
+      a.iter()
+        .map(|c| json!({"field": c["field"].as_str().unwrap_or(""),
+                        "order": c.get("order").and_then(|o| o.as_str()).unwrap_or("none")}))
+        .collect()
+    })
+    .unwrap_or_default();
+  let aggs = req.get("aggs").filter(|a| a.as_object().map(|o| !o.is_empty()).unwrap_or(false)).map(|a| a.to_string());
+  json!({
+    "qkind": qkind, "qtext": qtext, "limit": req["limit"].as_u64().unwrap_or(0),
+    "execution": req["execution"].as_str().unwrap_or("wand"), "sort": sort,
+    "has_cursor": has_cursor, "return_stored": req["return_stored"] == true,
+    "filter": req.get("filter").map(|f| f.to_string()).unwrap_or_default(),
+    "aggs": aggs.unwrap_or_default(),
+  })
+}
+
+fn empty_summary() -> Value {
+  json!({"qkind": "", "qtext": "", "limit": 1, "execution": "wand", "sort": [], "has_cursor": false,
+         "return_stored": true, "filter": "", "aggs": ""})
+}
+
+fn empty_flags() -> Value {
+  json!({"q": "", "limit": 1, "execution": "wand", "sort": [], "has_cursor": false,
+         "return_stored": true, "aggs": ""})
+}
+
+fn op_json(op: &Op, lib_had_cursor: bool) -> Value {
+  let docs = |ds: &Vec<Doc>| ds.iter().map(|d| json!({"id": d.id, "ver": d.ver, "valid": d.valid})).collect::<Vec<_>>();
+  let mut o = json!({
+    "kind": op.kind(), "docs": [], "ids": [], "req": empty_summary(),
+    "cli": {"form": "na", "flags": empty_flags()},
+    "ffi": {"expressible": false,
+            "args": {"query": "", "query_is_node": false, "limit": 1, "has_cursor": false, "aggs": "", "aggs_len": 0}},
+    "cursor_from": -1,
+  });
+  match op {
+    Op::Add(d) | Op::Update(d) => o["docs"] = json!(docs(d)),
+    Op::Delete(ids) => {
+      o["ids"] = json!(ids
+        .iter()
+        .map(|i| json!({"id": i, "trimmed": i.trim(), "padded": i.trim() != i.as_str()}))
+        .collect::<Vec<_>>())
+    }
+    Op::Search(s) => {
+      let cur = if lib_had_cursor { Some("x".to_string()) } else { None };
+      o["req"] = summary(s, lib_had_cursor);
+      o["cursor_from"] = json!(s.cursor_from.map(|k| k as i64).unwrap_or(-1));
+      let flags = if s.cli_form == "flags" { cli_flags(s, &cur).1 } else { empty_flags() };
+      o["cli"] = json!({"form": s.cli_form, "flags": flags});
+      let a = ffi_args(&s.req, &cur);
+      o["ffi"] = json!({
+        "expressible": ffi_expressible(&s.req),
+        "args": {"query": a.query, "query_is_node": a.query_is_node, "limit": a.limit,
+                 "has_cursor": a.cursor.is_some(),
+                 "aggs": a.aggs.clone().unwrap_or_default(), "aggs_len": a.aggs.map(|x| x.len()).unwrap_or(0)},
+      });
+    }
+    _ => {}
+  }
+  o
+}
+
+pub fn main(args: &Args) -> Result<()> {
+  let seed = args.u64("seed", 1);
+  let out = args.str("out", "out/frontends.ndjson");
+  let n_scn = args.usize("scenarios", 6);
+  let cli_bin = args.get("cli").map(PathBuf::from);
+  let mut tr = Tracer::create(Path::new(&out))?;
+  let mut steps = 0usize;
+  let mut searches = 0usize;
+  let mut processes = 0usize;
+  let mut cases: Vec<Value> = Vec::new();
+  if let Some(path) = args.get("cases") {
+    for line in std::fs::read_to_string(path)?.lines().filter(|l| !l.trim().is_empty()) {
+      cases.push(serde_json::from_str(line)?);
+    }
+  }
+  let n_cases = cases.len();
+  for scn in 0..(n_cases + n_scn) {
+    let mut r = rng(seed, 25_000 + scn as u64);
+    let ops = if scn < n_cases { history_from_case(&cases[scn], &mut r) } else { gen_history(&mut r, scn - n_cases) };
+    let scratch = Scratch::new("front");
+    let mut obs: BTreeMap<&str, Vec<Obs>> = BTreeMap::new();
+    for fe in FES {
+      let dir = scratch.join(fe);
+      std::fs::create_dir_all(&dir)?;
+      let v = match fe {
+        "lib" => run_lib(&ops, &dir, false)?,
+        "libffi" => run_lib(&ops, &dir, true)?,
+        "ffi" => run_ffi(&ops, &dir)?,
+        "http" => run_http(&ops, &dir)?,
+        _ => match &cli_bin {
+          Some(b) => {
+            let v = run_cli(&ops, &dir, b)?;
+            processes += ops.len();
+            v
+          }
+          None => ops.iter().map(|_| Obs::na()).collect(),
+        },
+      };
+      obs.insert(fe, v);
+    }
+    tr.emit(json!({"ev": "reset", "scn": scn, "ops": ops.len(), "cli": cli_bin.is_some(),
+                   "fes": FES, "tlc_generated": scn < n_cases}));
+    for (step, op) in ops.iter().enumerate() {
+      let lib_cursor = match op {
+        Op::Search(s) => s.cursor_from.map(|k| obs["lib"][k].cursor.is_some()).unwrap_or(false),
+        _ => false,
+      };
+      let mut o = serde_json::Map::new();
+      for fe in FES {
+        o.insert(fe.to_string(), obs[fe][step].json());
+      }
+      tr.emit(json!({"ev": "step", "scn": scn, "step": step, "op": op_json(op, lib_cursor), "obs": o}));
+      steps += 1;
+      if matches!(op, Op::Search(_)) {
+        searches += 1;
+      }
+    }
+  }
+  let lines = tr.finish();
+  println!(
+    "{}",
+    json!({"scenarios": n_scn + n_cases, "tlc_generated": n_cases, "steps": steps, "searches": searches, "cli_processes": processes,
+           "events": lines, "out": out})
+  );
+  Ok(())
 }
